@@ -194,17 +194,27 @@ func checkProgram(p *pool, c Case, cfgs []string) ([]finding, progResult) {
 				}
 			}
 		}
+		// the tail-iteration budget: a call that is never collapsed performs no
+		// tail iteration, so the run agrees with elimination off even under a
+		// budget far below the number of turns
+		if c.N == 10 && pr.fits {
+			o := execute(p, src, runOpts{Limit: blockedTailBudget}, cfgOn)
+			if !same(o.Out, off.Out) {
+				add("never-collapsed", fmt.Sprintf("with MaxTailIterations=%d the %d-turn run agrees with elimination off (no turn through %s is a tail iteration): %s", blockedTailBudget, c.N, blockerFrameName(b), off.Out.String()),
+					cfgOn+": "+o.Out.String(), "a call made inside the dynamic extent of "+b+" was collapsed")
+			}
+		}
 		// the semantics that depend on those frames: the innermost handler catches
 		if c.N >= 1 && c.Err != "none" {
 			want := ""
 			switch b {
-			case "HANDLER-BIND":
+			case "HANDLER-BIND", "HANDLER-BIND-2": // (the 0-binding spellings install no handler)
 				if c.Err == "base" {
 					want = "-5001" // -5000-n of the activation with n=1, which called the base case
 				} else {
 					want = fmt.Sprint(-5000 - c.N) // established by the first activation (n=N)
 				}
-			case "IGNORE-ERRORS":
+			case "IGNORE-ERRORS", "IGNORE-ERRORS-ONEFORM":
 				want = "()"
 			}
 			if want != "" {
@@ -236,6 +246,11 @@ func checkProgram(p *pool, c Case, cfgs []string) ([]finding, progResult) {
 	}
 	return fs, pr
 }
+
+// blockedTailBudget is the tail-iteration budget of the extra run of blocked
+// programs (at most a funcall/apply frame collapsing onto itself counts a turn
+// or two there; the loop's own turns must not count at all).
+const blockedTailBudget = 4
 
 // group is the unit of work: all iteration counts of one (shape, topology,
 // argument style, error mode).
@@ -634,12 +649,29 @@ func (e *explorer) runGroups(groups []group) {
 	}
 }
 
+// reducedBlocked: shapes with a degenerate blocker spelling get the full cross
+// product only in the thorough tier on base shapes of depth <= 1.
+var fullDegenerate bool
+
+func reducedBlocked(shape []string) bool {
+	return hasDegenerateBlocker(shape) && (!fullDegenerate || len(shape)-1 >= 2)
+}
+
 func makeGroups(family string, shapes [][]string) []group {
 	var gs []group
 	for _, s := range shapes {
 		for topo := 1; topo <= 3; topo++ {
 			if topo == 3 && hasHeadToken(s) {
 				continue // operator-position shapes: self and 2-cycle
+			}
+			if reducedBlocked(s) {
+				// degenerate spellings outside their full cross product: self and
+				// mutual recursion, accumulator style, no error / error at iteration N
+				if topo <= 2 {
+					gs = append(gs, group{Case{Family: family, Shape: s, Topo: topo, Args: "acc", Err: "none"}},
+						group{Case{Family: family, Shape: s, Topo: topo, Args: "acc", Err: "base"}})
+				}
+				continue
 			}
 			for _, a := range argStyles {
 				for _, em := range errModes {
@@ -844,7 +876,11 @@ func run(r *core.Run) {
 		subsumed: map[string]int{}, found: map[string]int{}, sampled: map[string]bool{}}
 
 	r.Bound("terminal_positions", terminalTokens)
+	fullDegenerate = r.Thorough()
 	r.Bound("blocking_boundaries", blockerTokens)
+	r.Bound("blocking_boundaries_degenerate_spellings", map[string]any{"tokens": degenerateBlockers,
+		"cross_product":         "quick, and thorough on base shapes of depth 2: self and 2-cycle, accumulator style, error modes none/base; thorough on base shapes of depth <= 1: full",
+		"tail_iteration_budget": "every blocked program with N=10 is also run with elimination on under MaxTailIterations=4 and must agree with elimination off"})
 	r.Bound("transparency_only_positions", append(append([]string{}, nontailTokens...), headTokens...))
 	r.Bound("tail_shape_depth", tailDepth)
 	r.Bound("blocked_base_shape_depth", insDepth)
@@ -899,7 +935,7 @@ func run(r *core.Run) {
 
 	fam := map[string]map[int][][]string{
 		"tail":              byDepth(tailShapes(tailDepth)),
-		"blocked":           byDepth(insertedShapes(insDepth, blockerTokens)),
+		"blocked":           byDepth(insertedShapes(insDepth, append(append([]string{}, blockerTokens...), degenerateBlockers...))),
 		"transparency-only": byDepth(insertedShapes(1, append(append([]string{}, nontailTokens...), headTokens...))),
 		"multiform":         byDepth(tailShapes(mfDepth)),
 		"sequence":          byDepth(tailShapes(mfDepth)),
